@@ -55,3 +55,84 @@ H3Error verif_polyprims(const GeoPolygon *polygon, H3Index cell, int out[8]) {
     free(bboxes);
     return E_SUCCESS;
 }
+
+// C07/C15: ten primitive predicates for ANY cell (coarser than or at the target resolution); 0..7 as in
+// verif_polyprims, 8 = bboxContainsBBox(polygon bbox, covering cell bbox), 9 = cellBoundaryInsidePolygon(outline of
+// the covering bbox) -- what the `cellRes < iter->_res` block of iterStepPolygonCompact combines
+static H3Error verif_polyprims2(const GeoPolygon *polygon, const BBox *bboxes, H3Index cell, int out[10]) {
+    for (int i = 0; i < 10; i++) out[i] = 0;
+    int cellRes = H3_GET_RESOLUTION(cell);
+    LatLng center;
+    H3Error e = H3_EXPORT(cellToLatLng)(cell, &center);
+    if (e) return e;
+    out[0] = pointInsidePolygon(polygon, bboxes, &center);
+    LatLng firstVertex = polygon->geoloop.verts[0];
+    if (bboxContains(&VALID_RANGE_BBOX, &firstVertex)) {
+        H3Index polygonCell;
+        if (!H3_EXPORT(latLngToCell)(&firstVertex, cellRes, &polygonCell)) out[1] = (polygonCell == cell);
+    }
+    CellBoundary boundary;
+    e = H3_EXPORT(cellToBoundary)(cell, &boundary);
+    if (e) return e;
+    BBox bbox;
+    e = cellToBBox(cell, &bbox, false);
+    if (e) return e;
+    out[2] = cellBoundaryInsidePolygon(polygon, bboxes, &boundary, &bbox);
+    out[3] = cellBoundaryCrossesPolygon(polygon, bboxes, &boundary, &bbox);
+    BBox cb;
+    e = cellToBBox(cell, &cb, true);
+    if (e) return e;
+    out[4] = bboxOverlapsBBox(&bboxes[0], &cb);
+    CellBoundary bb = bboxToCellBoundary(&cb);
+    out[5] = bboxContainsBBox(&cb, &bboxes[0]);
+    out[6] = pointInsidePolygon(polygon, bboxes, &bb.verts[0]);
+    out[7] = cellBoundaryCrossesPolygon(polygon, bboxes, &bb, &cb);
+    out[8] = bboxContainsBBox(&bboxes[0], &cb);
+    out[9] = cellBoundaryInsidePolygon(polygon, bboxes, &bb, &cb);
+    return E_SUCCESS;
+}
+
+static void verif_pt_visit(const GeoPolygon *p, const BBox *bb, H3Index cell, int res, int64_t *count) {
+    if (*count > 300000) return;
+    int pr[10];
+    (*count)++;
+    if (verif_polyprims2(p, bb, cell, pr)) { printf(" %llx:E", (unsigned long long)cell); return; }
+    printf(" %llx:", (unsigned long long)cell);
+    for (int i = 0; i < 10; i++) putchar('0' + pr[i]);
+    int r = H3_GET_RESOLUTION(cell);
+    if (r < res && pr[4]) {
+        H3Index kids[7] = {0};
+        if (H3_EXPORT(cellToChildren)(cell, r + 1, kids)) return;
+        for (int i = 0; i < 7; i++) if (kids[i]) verif_pt_visit(p, bb, kids[i], res, count);
+    }
+}
+
+// the geometry answers for every cell a traversal that descends wherever the covering bounding box overlaps can
+// reach (a superset of what iterStepPolygonCompact examines)
+void verif_polytable(const GeoPolygon *polygon, int res) {
+    BBox *bboxes = calloc((size_t)polygon->numHoles + 1, sizeof(BBox));
+    bboxesFromGeoPolygon(polygon, bboxes);
+    int64_t count = 0;
+    printf("ok");
+    for (int bc = 0; bc < NUM_BASE_CELLS; bc++) verif_pt_visit(polygon, bboxes, baseCellNumToCell(bc), res, &count);
+    printf("\n");
+    free(bboxes);
+}
+
+// the sequence of cells the real compact iterator yields
+void verif_polycompact(const GeoPolygon *polygon, int res, uint32_t flags) {
+    IterCellsPolygonCompact it = iterInitPolygonCompact(polygon, res, flags);
+    int64_t n = 0, cap = 300000;
+    H3Index *buf = calloc((size_t)cap, sizeof(H3Index));
+    for (; it.cell; iterStepPolygonCompact(&it)) {
+        if (n >= cap) { iterDestroyPolygonCompact(&it); break; }
+        buf[n++] = it.cell;
+    }
+    if (it.error) printf("err %d\n", (int)it.error);
+    else {
+        printf("ok %lld", (long long)n);
+        for (int64_t i = 0; i < n; i++) printf(" %llx", (unsigned long long)buf[i]);
+        printf("\n");
+    }
+    free(buf);
+}
